@@ -62,6 +62,9 @@ func (m *RuleManager) Initialize(maxReplica int, locationLabels []string) error 
 	if m.initialized {
 		return nil
 	}
+	// An earlier attempt that failed half-way must not leave rules or groups behind: loadRules
+	// would take every stored rule for a duplicate of them and delete it from the storage.
+	m.ruleConfig = newRuleConfig()
 
 	if err := m.loadRules(); err != nil {
 		return err
